@@ -76,8 +76,27 @@ pub fn c03(tier: Tier) -> i32 {
                         }
                     }
                 }
+                // a policy that grows one byte at a time and refuses everything beyond what the largest
+                // record needs (its extent + 2): it permits the needed size, so nothing may change - a
+                // reader that grows without need runs into the refusal
+                {
+                    let rs = match format {
+                        Format::Fasta => refmodel::fasta(&data),
+                        Format::Fastq => refmodel::fastq(&data),
+                    };
+                    if rs.err.is_none() && !rs.recs.is_empty() {
+                        let maxext = rs.recs.iter().map(|r| r.extent).max().unwrap_or(0);
+                        for cap in 3..=len.max(1) + 2 {
+                            envs.push(Env { format, cap, chunk: Chunk::All, int: IntPat::None, policy: PolKind::Plus1RefuseAbove(cap.max(maxext + 2)), fault: None });
+                        }
+                    }
+                }
                 for env in &envs {
                     for (di, d) in drivers.iter().enumerate() {
+                        // an exact-count batch legitimately needs room for all its records
+                        if matches!(env.policy, PolKind::Plus1RefuseAbove(_)) && matches!(d, Drv::Exact(_)) {
+                            continue;
+                        }
                         let run = run_flat(&data, env, *d);
                         l.evals += 1;
                         l.count("transitions", run.api_calls);
@@ -222,7 +241,7 @@ pub fn c03(tier: Tier) -> i32 {
             property: "C03".into(),
             tier: tier.name().into(),
             rule: format!(
-                "for every input of [{}]: observation logs of three drivers (next() with position() after every call; read_record_set flattened; read_record_set_exact(2) with batch sizes and positions) under every capacity 3..len+2 x policy {{Std,+1,DoubleUntil(4),DoubleUntilLimited(4,1M)}} x chunking x interrupted-read pattern, each compared with the canonical configuration (64 KiB, StdPolicy, single read); equality with one canonical configuration implies equality of all pairs; record-shape families additionally under DoubleUntilLimited(4, limit) for every limit on, one below and beyond the growth chain of every capacity, against the same policy written from its documentation; non-trivial = input with at least one record or error",
+                "for every input of [{}]: observation logs of three drivers (next() with position() after every call; read_record_set flattened; read_record_set_exact(2) with batch sizes and positions) under every capacity 3..len+2 x policy {{Std,+1,DoubleUntil(4),DoubleUntilLimited(4,1M); +1 refusing above max(capacity, largest record extent + 2) for inputs without error, drivers next / read_record_set}} x chunking x interrupted-read pattern, each compared with the canonical configuration (64 KiB, StdPolicy, single read); equality with one canonical configuration implies equality of all pairs; record-shape families additionally under DoubleUntilLimited(4, limit) for every limit on, one below and beyond the growth chain of every capacity, against the same policy written from its documentation; non-trivial = input with at least one record or error",
                 names.join("; ")
             ),
             exhaustive: true,
